@@ -33,6 +33,42 @@ type effectConfig struct {
 	setupCaptured func(lit *ssa.Function) bool
 	// isRequestValueType: values of this type must not be stored into shared objects.
 	isRequestValueType func(t types.Type) bool
+	// resolve returns the module callees of a call (static, or interface invoke by class hierarchy);
+	// nil: calls are opaque.
+	resolve func(c *ssa.CallCommon) []*ssa.Function
+}
+
+// originLeaves visits the values v may stand for: φ-leaves, and for a call of a module function
+// the values that function returns at that position (bounded depth), so a slice handed out by
+// a getter or a memoising helper is traced back to the storage it was read from.
+func originLeaves(v ssa.Value, cfg effectConfig, depth int, seen map[ssa.Value]bool, visit func(ssa.Value)) {
+	phiLeaves(v, func(l ssa.Value) {
+		if seen[l] {
+			return
+		}
+		seen[l] = true
+		visit(l)
+		if depth <= 0 || cfg.resolve == nil {
+			return
+		}
+		idx := 0
+		cv := strip(l)
+		if e, ok := cv.(*ssa.Extract); ok {
+			idx = e.Index
+			cv = strip(e.Tuple)
+		}
+		call, ok := cv.(*ssa.Call)
+		if !ok {
+			return
+		}
+		for _, cal := range cfg.resolve(&call.Call) {
+			allInstrs(cal, func(in ssa.Instruction) {
+				if r, ok := in.(*ssa.Return); ok && idx < len(r.Results) {
+					originLeaves(r.Results[idx], cfg, depth-1, seen, visit)
+				}
+			})
+		}
+	})
 }
 
 // ownerOfValue finds the named struct type from a field of which value v was loaded
@@ -227,6 +263,29 @@ func runEffects(fns []*ssa.Function, cfg effectConfig) []effectFinding {
 				}
 			case *ssa.MapUpdate:
 				reportMapWrite(&out, fn, in, x.Map, cfg, inOnce)
+				// a slice read from shared state handed to a per-request or foreign container: whoever
+				// appends to the entry writes the shared backing array
+				if _, isSlice := x.Value.Type().Underlying().(*types.Slice); isSlice {
+					if o, g, _ := ownerOfValue(x.Map); g == nil && (o == nil || cfg.classify(o) != "shared") {
+						src := ""
+						originLeaves(x.Value, cfg, 4, map[ssa.Value]bool{}, func(l ssa.Value) {
+							if _, isCall := strip(l).(*ssa.Call); isCall {
+								return
+							}
+							if _, isSl := strip(l).(*ssa.Slice); isSl {
+								return
+							}
+							if lo, lg, _ := ownerOfValue(l); lo != nil && cfg.classify(lo) == "shared" {
+								src = "shared type " + lo.Obj().Name()
+							} else if lg != nil {
+								src = "package-level variable " + lg.Name()
+							}
+						})
+						if src != "" {
+							out = append(out, effectFinding{fn, in, "append-hazard", "a slice read from " + src + " is stored as-is into a per-request container (" + shortName(x.Map.Type().String()) + "): appending to that entry writes the shared backing array"})
+						}
+					}
+				}
 			case ssa.CallInstruction:
 				if n := callName(x.Common()); isContainerMutator(n) && len(x.Common().Args) > 0 && !isPureCounterBump(x, n) {
 					recv := x.Common().Args[0]
@@ -251,7 +310,7 @@ func runEffects(fns []*ssa.Function, cfg effectConfig) []effectFinding {
 					}
 					base := x.Common().Args[0]
 					hazard := ""
-					phiLeaves(base, func(l ssa.Value) {
+					originLeaves(base, cfg, 4, map[ssa.Value]bool{}, func(l ssa.Value) {
 						o, g, fv := ownerOfValue(l)
 						switch {
 						case o != nil && cfg.classify(o) == "shared":
